@@ -138,7 +138,7 @@ def run(chk):
     vocabulary_rule(chk, repo, "C01.S.vocabulary", [(FILE, "cnf"), (FILE, "approx_model_count")])
     dispatch_rule(chk, repo, "C01.S.dispatch", FILE, "cnf", set(sup) - {"x"})
     nsinks = idpool_string_key_rule(chk, repo, "C01.S.aux-key-not-a-string", FILE, "cnf")
-    chk.floor("IDPool.id call sites in cnf", nsinks, 40)
+    chk.floor("IDPool.id call sites in cnf", nsinks, 3)
 
     def encode(spec):
         c, types, fanin = make_circuit(spec)
